@@ -2,7 +2,7 @@
    at the resolved form of its handle methods. *)
 From Coq Require Import List String NArith Arith Bool Lia.
 Import ListNotations.
-From IT Require Import Sdpl.IR Sdpl.Elab Gen.InteractRt.
+From IT Require Import Sdpl.IR Sdpl.Elab Sdpl.Wf Gen.InteractRt.
 Open Scope string_scope.
 
 Definition bnd_of (b : lbind) : bnd string :=
@@ -72,7 +72,8 @@ Definition method_ok14 (m : model) (lm : lmethod) : bool :=
   | _ => true end.
 
 Definition is_nil_str (l : list string) : bool := match l with [] => true | _ => false end.
-Definition wf_C14 (m : model) : bool := is_nil_str (m_unknown m) && forallb (method_ok14 m) (m_methods m).
+(* await_ok: the dispatch arm awaits an `async fn` user method (otherwise its body, and the channel end it was given, never run) *)
+Definition wf_C14 (m : model) : bool := await_ok m && is_nil_str (m_unknown m) && forallb (method_ok14 m) (m_methods m).
 
 Lemma wf_C14_im_ok : forall m, wf_C14 m = true -> forallb (im_ok string) (meths14 m) = true.
 Proof.
